@@ -29,6 +29,14 @@ DEFINERS = [
     ("cond_lit_choice2", "{ c(G) } :- g(G). { p(G,V) } :- dp(G,V), c(H) : g(H), H < G.", [["dp", 2], ["g", 1]]),
     ("chain_of_domains", "{ c(G,V) } :- dp(G,V). d2(G,V) :- c(G,V), g(G). { p(G,V) } :- d2(G,V).", [["dp", 2], ["g", 1]]),
     ("agg_choice", "{ c(G) } :- g(G). { p(G,V) } :- dp(G,V), 1 <= #sum { 1,H : c(H) }.", [["dp", 2], ["g", 1]]),
+    ("topdown_chain", "{ p(G,V) } :- c2(G,V). c2(G,V) :- c1(G,V). c1(G,V) :- dp(G,V), on(G). { on(G) } :- g(G).",
+     [["dp", 2], ["g", 1]]),
+    ("bottomup_chain", "{ on(G) } :- g(G). c1(G,V) :- dp(G,V), on(G). c2(G,V) :- c1(G,V). { p(G,V) } :- c2(G,V).",
+     [["dp", 2], ["g", 1]]),
+    ("topdown_chain3", "{ p(G,V) } :- c3(G,V). c3(G,V) :- c2(G,V). c2(G,V) :- c1(G,V), g(G). c1(G,V) :- dp(G,V), not off(G). "
+                       "{ off(G) } :- g(G).", [["dp", 2], ["g", 1]]),
+    ("mixed_order", "c2(G,V) :- c1(G,V). { p(G,V) } :- c2(G,V). { on(G) } :- g(G). c1(G,V) :- dp(G,V), on(G).",
+     [["dp", 2], ["g", 1]]),
     ("dneg", "{ on(G) } :- g(G). { p(G,V) } :- dp(G,V), not not on(G).", [["dp", 2], ["g", 1]]),
 ]
 
